@@ -339,3 +339,13 @@ Theorem C08_forwarder_cleanup_refuted : forall cas : bool,
   all_done s2 = true /\ tfind (fst s2) 7 = TAbsent.
 Proof. exact forwarder_cleanup_refuted. Qed.
 Print Assumptions C08_forwarder_cleanup_refuted.
+
+(* "most recent SUCCESSFUL handshake": a handshake whose response cannot be delivered (event AuthFail: handleHandshake returns
+   before registering anything) leaves the lookup at the client's live connection — an instance of C08_lookup_current, whose
+   `post` may contain any AuthFail.  Registering BEFORE answering (seeded C08-17: the event AuthOK in its place, then the close
+   of the dead connection) is refuted: *)
+Theorem C08_register_before_response_refuted :
+  find current_variant redis_backend (run current_variant redis_backend 300000 init (lost_response_history false)) 2 7 = Found 1 10 /\
+  find current_variant redis_backend (run current_variant redis_backend 300000 init (lost_response_history true)) 2 7 = Absent.
+Proof. exact register_before_response_refuted. Qed.
+Print Assumptions C08_register_before_response_refuted.
